@@ -34,7 +34,12 @@ MANIFEST = dict(
           "inside ONE path in which the subject is restored before / after / in the same container as companions from registries with an "
           "EQUAL table and another unit system (mks / cgs / imperial) or with the same symbol names and other scales, incl. a second "
           "restoration of the same original, use / release / registry edits of an earlier restored object; every restored object is "
-          "followed up against its own original. Enumerated, not solved: subjects, routes, argument forms, histories, follow-up "
+          "followed up against its own original; (c) WHICH SIDE MOVES ON AFTERWARDS - the registry of the ORIGINAL is edited after / between "
+          "restorations (edit kinds: rescale a symbol, add a symbol, both, remove a symbol): what was restored before must go on giving the outcomes of "
+          "the original as it was when persisted (reference from a fresh world), what is restored afterwards those of the edited original; followed up "
+          "with one-step and TWO-step programs whose second step is a unit STRING resolved in the registry the first result is bound to "
+          "(q.to(s).to(own), (q*q).to(own**2), q.in_base().to(own), conversion to a symbol only the other side's registry has: same refusal); "
+          "histories also through the registry's JSON text (same text loaded several times), Unit.copy(deep=True), copy.deepcopy / copy.copy of the registry. Enumerated, not solved: subjects, routes, argument forms, histories, follow-up "
           "operations, partner units, order. NOT a solver statement: "
           "that the stored numbers survive pickle/savetxt (concrete byte-wise comparison on a fixed set of arrays, performed and "
           "reported as ground checks) and that registry tables survive (concrete row-by-row comparison). Copies that can carry terms "
@@ -60,9 +65,15 @@ EXPLANATION = (
     "equal tables and different unit systems, or equal names and different scales) and T (S's original once more) is restored step by "
     "step or in one list / dict / tuple / nested container within one path - nothing is cleared between the steps and every restored "
     "object stays referenced until a `drop` step; `use` runs conversions on an earlier restored object, `edit` changes the registry of an "
-    "earlier restored object (scale of a symbol x 3, a new symbol); afterwards every restored member whose registry was not edited on "
+    "earlier restored object (scale of a symbol x 3, a new symbol; or one of the two; or removal of the table symbol smoot), `editorig` makes the same "
+    "edit in the registry of the ORIGINAL a member was restored from (members restored before it are then compared with the original of a fresh, "
+    "unedited world; the units the user holds of the edited registry are made anew and members restored afterwards are compared with those), "
+    "`useorig` runs conversions on the original before it is persisted; afterwards every restored member whose registry was not edited on "
     "purpose must give the same outcome as ITS original for all payloads (labels <member>:restored-vs-original/<family>/<aspect>), and its "
-    "registry must still have the original's unit system and rows."
+    "registry must still have the unit system and the rows (scale, dimensions, offset, prefixable of every symbol) that the original's registry had "
+    "at the moment of the restoration - whatever was edited elsewhere since. Follow-ups of the histories include two-step programs (family chain): "
+    "conversion to the partner / to base units / product, then a conversion to a unit given as a STRING, which the library resolves in the registry "
+    "the intermediate result is bound to; and conversions to the symbol that only an edited registry has (must be refused alike)."
 )
 BOUNDS = {
     "quick": "17 subjects (table units: degree arcmin | K degC delta_degC | dB | dimensionless | C | m | km/s; custom registries: added xla, prefixed kxlp, "
@@ -76,20 +87,28 @@ BOUNDS = {
              "subject of the kinds angle, temp, nodim, compound, 2 forms for the other 6 table subjects, each with a compact battery of 13-15 follow-ups; "
              "RESTORATION HISTORIES: 4 casts (km in cgs / mks / imperial registries with the unchanged table, both ways round; kxlp in three custom registries "
              "with equal tables and cgs / mks / imperial; xla in registries with the same names and other scales) x routes {pickle 5 of quantity, deepcopy of "
-             "quantity, pickle 5 of Unit; pickle 2 of quantity for the first cast} x 12 histories (C>S, S>C, [C,S], {C,S}, S>T, C>D>S, [C,D,S], C>use(C)>S, "
-             "C>drop(C)>S, C>edit(C)>S, S>C>edit(C), S>T>edit(T); edits not on the Unit route) x 7 follow-ups per restored member (in_base, in_cgs, "
-             "get_base_equivalent, to(str), to(Unit), + partner, describe), restored-first order for 3 histories on pickle 5; "
+             "quantity, pickle 5 of Unit; pickle 2 of quantity for the first cast} x 20 histories (C>S, S>C, [C,S], {C,S}, S>T, C>D>S, [C,D,S], C>use(C)>S, "
+             "C>drop(C)>S, C>edit(C)>S, S>C>edit(C), S>T>edit(T); original edited afterwards: S>editorig(S), S>T>editorig(S), S>editorig(S)>T, C>S>editorig(C), "
+             "[C,S]>editorig(S); edit kinds: S>rescale-orig(S)>T, S>T>rescale(T), S>shrink-orig(S)>T; edits of a restored registry not on the pickled-Unit route); "
+             "+ deepcopy of the registry for the last cast; + 3 casts in mks registries (xla / kxlp / km; two members dump the SAME JSON text) x registry JSON x the 20 histories; "
+             "x 13 follow-ups per restored member (in_base, in_cgs, get_base_equivalent, to(str), to(Unit), + partner, describe, the two-step chains "
+             "to(str)>to(own), mul>to(own**2), in_base>to(own), to(str)>to(late symbol), reparse>in_base, and to(removed symbol)), restored-first order for 3 histories on pickle 5, "
+             "fresh-world reference for every history that edits an original; "
              "+ 260 registry-table cases (one per subject x route / form); + 150 concrete value round-trip cases",
     "thorough": "57 subjects (adds rad lat mas degF R delta_degF mK kdegC Np B percent statC T G A V ohm Msun erg s, 9 compounds, more "
                 "units of the custom / modified / cgs registries) x 7 routes for every added subject (15 for the 17 subjects of the quick tier), all 32 routes (pickle 2,3,4,5 of Unit / quantity / array, nested "
                 "containers, deepcopy of array / nested, copy.copy, q.copy(), repr, 5 usecols forms) for one subject per (kind, registry) x full families (trig 4, exp 2, "
                 "base 10, arith 20, unit 9, equiv 2; per partner: bin 19, conv 14) x both orders on object-graph routes (by-reference/text routes: both orders for one subject per (kind, registry), else original-first); partner restored as well for "
                 "angle/temperature/logarithmic subjects on 3 routes; TEXT-FILE ARGUMENT FORMS: all 36 forms for one table subject per kind (7), 5 comment-line / delimiter forms for "
-                "every other table subject; RESTORATION HISTORIES: the 4 casts x {pickle 2, 5 of quantity, deepcopy of quantity, pickle 5 of Unit} x all 25 histories "
-                "(adds (S,C), [S,C], [S,T], C>S>D, S>C>D, {S,C,D}, [C,S]>D, C>[D,S] nested, S>use(S)>C, C>S>drop(C), C>S>edit(C), [S,C]>edit(C), T>edit(T)>S) and x 7 more routes "
-                "(pickle 3, 4 of quantity, pickle 2, 5 of array, pickle 2 of Unit, deepcopy of array / Unit) x the 12 quick histories, 20 follow-ups per restored member; 6 more casts "
-                "(xla cgs / mks twins, erg vs J, km/s, degC, C / statC, modified pc) x {pickle 5, deepcopy of quantity} x 25 histories x 7 follow-ups; restored-first "
-                "order on those two routes for the histories without registry edits; + 1071 registry-table cases; + 224 concrete value round-trip cases",
+                "every other table subject; RESTORATION HISTORIES: the 4 casts x {pickle 2, 5 of quantity, deepcopy of quantity, pickle 5 of Unit} x all 45 histories "
+                "(adds (S,C), [S,C], [S,T], C>S>D, S>C>D, {S,C,D}, [C,S]>D, C>[D,S] nested, S>use(S)>C, C>S>drop(C), C>S>edit(C), [S,C]>edit(C), T>edit(T)>S, "
+                "{S,T}>editorig(S), useorig(S)>S>editorig(S), S>use(S)>editorig(S), S>editorig(S)>use(S), S>editorig(S)>T>edit(T), S>C>editorig(S)>edit(C), "
+                "T>rescale(T)>S, C>S>rescale-orig(C), S>extend-orig(S)>T, S>T>extend(T), S>T>shrink(T), T>shrink(T)>S) and x 10 more routes "
+                "(pickle 3, 4 of quantity, pickle 2, 5 of array, pickle 2 of Unit, deepcopy of array / Unit, Unit.copy(deep=True), copy.deepcopy / copy.copy of the registry) "
+                "x the 20 quick histories, 37 follow-ups per restored member (20 of the one-step battery, 15 of the chain family, 2 on the removed symbol); 6 more casts "
+                "(xla cgs / mks twins, erg vs J, km/s, degC, C / statC, modified pc) x {pickle 5, deepcopy of quantity} x 45 histories x 13 follow-ups; the 3 mks casts x registry JSON "
+                "x 45 histories x 37 follow-ups; restored-first order on {pickle 5, deepcopy of quantity, JSON} for the histories without registry edits, fresh-world reference for "
+                "every history that edits an original; + 1071 registry-table cases; + 224 concrete value round-trip cases",
 }
 OUTSIDE = ("PARTIAL. Not solver statements: (1) the persistence step itself is concrete - that stored NUMBERS survive pickle / savetxt / copies is a byte-wise "
            "comparison on 8 fixed arrays (float64 incl. inf/nan/denormal/strided/empty, float32, int64) x 10 routes (ground checks; the symbolic battery "
@@ -98,12 +117,16 @@ OUTSIDE = ("PARTIAL. Not solver statements: (1) the persistence step itself is c
            "routes, operations, partners and order are enumerated; "
            "(4) text-file argument forms and restoration histories are enumerated lists, not all programs: savetxt/loadtxt forms are the 36 listed ones (comment "
            "characters of ONE character as loadtxt documents, delimiters that numpy itself reads back, values that every fmt prints exactly, 1-3 columns, 1-3 rows); "
-           "histories are the 25 listed two-/three-step ones over at most 3 registries, restored through the SAME route within a history; histories through JSON "
-           "and by-reference copies and histories longer than three steps are outside; what a registry edit does to the EDITED object itself is C12/C13. "
+           "histories are the 45 listed two- to four-step ones over at most 3 registries, restored through the SAME route within a history; edits are the four "
+           "listed kinds (x3 rescale of one symbol, one added length symbol, both, removal of smoot); histories through by-reference copies (copy.copy / "
+           "q.copy() / Unit.copy() share the registry object BY DESIGN, an edit on either side is meant to show on the other), through text files (loadtxt reads in "
+           "the default registry) and histories longer than four steps are outside; JSON histories are walked in mks registries only (the JSON text does not carry the "
+           "unit system: known finding); what a registry edit does to the EDITED object itself, and to units made before the edit, is C12/C13. "
            "Outside altogether: pickle protocols 0 and 1 (sympy refuses them with "
            "NotImplementedError - checked that the refusal is loud); loadtxt(usecols=<bare int>) (documented as a sequence; refused with TypeError); savetxt/loadtxt of custom-registry units (loadtxt reads names in the default "
            "registry); HDF5 (h5py absent), dask arrays; the `name` attribute of arrays; raw hash values of units of different registries (they depend on "
-           "the repr of the registry table by design); follow-up programs longer than one operation per cache epoch; trig follow-ups are decided for "
+           "the repr of the registry table by design); follow-up programs longer than two operations (the two-step chains are run in the restoration histories only, the main battery is one "
+           "operation per cache epoch); trig follow-ups are decided for "
            "payloads in [0.5, 3] (sin/cos/tan are uninterpreted functions - on that interval every model of a linear-argument discrepancy replays); "
            "q**2 / q**0.5 operator forms (NumPy's scalar-power fast path differs for object arrays: np.square/np.sqrt/np.power are used); IEEE rounding (A1)")
 ASSUMPTIONS = ["C11: the payload of the restored quantity is a separate symbol constrained equal to the stored payload (justified by the concrete byte-wise "
@@ -498,7 +521,26 @@ UNARY = {
     "unit:list_equivalencies": (lambda E: _captured(E.u.list_equivalencies), ""),
     "equiv:thermal": (lambda E: E.q.to_equivalent("eV", "thermal"), ""),
     "equiv:spectral": (lambda E: E.q.to_equivalent("Hz", "spectral"), "pos"),
+    # two-step follow-ups: the second step is a STRING looked up in the registry that the result of the first step is bound to
+    "chain:in_base>to(own)": (lambda E: E.q.in_base().to(_own(E)), ""),
+    "chain:in_cgs>to(own)": (lambda E: E.q.in_cgs().to(_own(E)), ""),
+    "chain:mul>to(own**2)": (lambda E: (E.q * E.q).to(f"({_own(E)})**2"), ""),
+    "chain:scale>in_units(own)": (lambda E: (2.5 * E.q).in_units(_own(E)), ""),
+    "chain:reparse>in_base": (lambda E: E.ctx.quantity(E.x, E.unyt.Unit(_own(E), registry=E.u.registry)).in_base(), ""),
+    "chain:reparse(own**2)>in_mks": (lambda E: E.ctx.quantity(E.x, E.unyt.Unit(f"({_own(E)})**2", registry=E.u.registry)).in_mks(), ""),
+    "chain:to(late)": (lambda E: E.q.to(LATE), ""),          # a symbol that only a registry edited later knows: refusal
+    "chain:registry-has(late)": (lambda E: LATE in E.u.registry, ""),
+    # a table symbol that a `remove` edit takes out of one registry (family `spare`)
+    "spare:to(spare)": (lambda E: E.q.to(SPARE), ""), "spare:registry-has(spare)": (lambda E: SPARE in E.u.registry, ""),
 }
+LATE = "xhn"   # the symbol that `edit` / `editorig` steps add to ONE registry
+SPARE = "smoot"  # the table symbol that a `remove` edit takes out of ONE registry (none of the subjects / partners is built on it)
+
+
+def _own(E):
+    """the spelling of the unit under test (symbol names, as pickle / savetxt / JSON users write it)"""
+    return str(E.u.expr)
+
 
 
 def _hash_consistent(E):
@@ -539,6 +581,13 @@ BINARY = {
     "unit:eq": (lambda E, n: (bool(E.u == E.P(n)), bool(E.P(n) == E.u), bool(E.u != E.P(n)),
                              bool(E.u.same_dimensions_as(E.P(n))), bool(E.P(n).same_dimensions_as(E.u))), ""),
     "unit:qty-times-unit": (lambda E, n: E.p(n) * E.u, ""), "unit:qty-over-unit": (lambda E, n: E.p(n) / E.u, "nonzero"),
+    "chain:to(str)>to(own)": (lambda E, n: E.q.to(n).to(_own(E)), ""),
+    "chain:to(str)>to(str)": (lambda E, n: E.q.to(n).to(n), ""),
+    "chain:to(str)>in_base": (lambda E, n: E.q.to(n).in_base(), ""),
+    "chain:to(str)>to(late)": (lambda E, n: E.q.to(n).to(LATE), ""),
+    "chain:to(Unit)>to(own)": (lambda E, n: E.q.to(E.P(n)).to(_own(E)), ""),
+    "chain:add>to(own)": (lambda E, n: (E.q + E.p(n)).to(_own(E)), ""),
+    "chain:partner>to(own)": (lambda E, n: E.p(n).to(_own(E)).to(n), ""),
 }
 
 
@@ -818,9 +867,22 @@ class Cast:
         self.tag, self.members, self.partner, self.edit, self.kind = tag, {"S": S, "C": C, "D": D, "T": S}, partner, edit, kind
 
 
-def _ser(name):
+def _ser(name, ctx=None):
     if name == "deepcopy":
         return copy.deepcopy
+    if name == "unitcopy":
+        return lambda u: u.copy(deep=True)
+    if name in ("deepcopy.registry", "copy.registry"):
+        # the REGISTRY is copied as an object of its own (copy.copy promises a table of its own too), the unit is spelled out in the copy
+        cp = copy.deepcopy if name == "deepcopy.registry" else copy.copy
+        return lambda u: ctx.mods["unyt"].Unit(str(u.expr), registry=cp(u.registry))
+    if name == "json":
+        # the registry goes through its JSON text (dumped anew for every restoration: an unchanged registry dumps the same text),
+        # the unit is rebuilt from its symbol names in the reloaded registry
+        def via_json(u):
+            r2 = ctx.mods["UR"].UnitRegistry.from_json(u.registry.to_json())
+            return ctx.mods["unyt"].Unit(str(u.expr), registry=r2)
+        return via_json
     proto = int(name[len("pickle"):])
     return lambda obj: pickle.loads(pickle.dumps(obj, protocol=proto))
 
@@ -839,10 +901,17 @@ HROUTES = {
     "graph:pickle5.qty": ("pickle5", "qty"), "graph:pickle5.arr": ("pickle5", "arr"), "graph:pickle2.arr": ("pickle2", "arr"),
     "graph:pickle5.unit": ("pickle5", "unit"), "graph:pickle2.unit": ("pickle2", "unit"),
     "graph:deepcopy.qty": ("deepcopy", "qty"), "graph:deepcopy.arr": ("deepcopy", "arr"), "graph:deepcopy.unit": ("deepcopy", "unit"),
+    "text:json": ("json", "unit"),   # containers: the members are dumped and reloaded one after the other
+    "graph:unitcopy.deep": ("unitcopy", "unit"), "graph:deepcopy.registry": ("deepcopy.registry", "unit"), "graph:copy.registry": ("copy.registry", "unit"),
 }
+# routes that restore member by member (a container is restored element by element) and give every restored member a registry of its own
+ELEMENTWISE = {"json", "unitcopy", "deepcopy.registry", "copy.registry"}
 # histories: steps ("R", role) restore alone | ("T", roles, container) restore together in one container | ("drop", role) release the
 # restored object and collect garbage | ("use", role) run conversions on the restored object (fills its registry's caches) |
-# ("edit", role) change the registry of the RESTORED object (scale of cast.edit x 3, a new symbol xhn)
+# ("edit", role) change the registry of the RESTORED object (scale of cast.edit x 3, a new symbol xhn) |
+# ("editorig", role) the same edit on the registry of the ORIGINAL the role was restored from - what was restored BEFORE must go on
+# behaving as the original did when it was persisted (reference: the original in a fresh world), what is restored AFTERWARDS (from
+# units made anew in the edited registry) must behave like the edited original | ("useorig", role) conversions on the original
 HISTORIES = {
     # two steps
     "C>S": [("R", "C"), ("R", "S")], "S>C": [("R", "S"), ("R", "C")],
@@ -857,21 +926,50 @@ HISTORIES = {
     "C>edit(C)>S": [("R", "C"), ("edit", "C"), ("R", "S")], "S>C>edit(C)": [("R", "S"), ("R", "C"), ("edit", "C")],
     "C>S>edit(C)": [("R", "C"), ("R", "S"), ("edit", "C")], "[S,C]>edit(C)": [("T", "SC", "list"), ("edit", "C")],
     "S>T>edit(T)": [("R", "S"), ("R", "T"), ("edit", "T")], "T>edit(T)>S": [("R", "T"), ("edit", "T"), ("R", "S")],
+    # the SOURCE is edited after (between) restorations
+    "S>editorig(S)": [("R", "S"), ("editorig", "S")], "S>T>editorig(S)": [("R", "S"), ("R", "T"), ("editorig", "S")],
+    "S>editorig(S)>T": [("R", "S"), ("editorig", "S"), ("R", "T")], "C>S>editorig(C)": [("R", "C"), ("R", "S"), ("editorig", "C")],
+    "[C,S]>editorig(S)": [("T", "CS", "list")] + [("editorig", "S")], "{S,T}>editorig(S)": [("T", "ST", "dict")] + [("editorig", "S")],
+    "useorig(S)>S>editorig(S)": [("useorig", "S"), ("R", "S"), ("editorig", "S")],
+    "S>use(S)>editorig(S)": [("R", "S"), ("use", "S"), ("editorig", "S")],
+    "S>editorig(S)>use(S)": [("R", "S"), ("editorig", "S"), ("use", "S")],
+    "S>editorig(S)>T>edit(T)": [("R", "S"), ("editorig", "S"), ("R", "T"), ("edit", "T")],
+    "S>C>editorig(S)>edit(C)": [("R", "S"), ("R", "C"), ("editorig", "S"), ("edit", "C")],
+    # KIND of the edit (the plain `edit` / `editorig` steps above rescale a symbol AND add one): rescale only, add only, remove only
+    "S>rescale-orig(S)>T": [("R", "S"), ("editorig", "S", "scale"), ("R", "T")], "S>T>rescale(T)": [("R", "S"), ("R", "T"), ("edit", "T", "scale")],
+    "T>rescale(T)>S": [("R", "T"), ("edit", "T", "scale"), ("R", "S")], "C>S>rescale-orig(C)": [("R", "C"), ("R", "S"), ("editorig", "C", "scale")],
+    "S>extend-orig(S)>T": [("R", "S"), ("editorig", "S", "add"), ("R", "T")], "S>T>extend(T)": [("R", "S"), ("R", "T"), ("edit", "T", "add")],
+    "S>shrink-orig(S)>T": [("R", "S"), ("editorig", "S", "remove"), ("R", "T")], "S>T>shrink(T)": [("R", "S"), ("R", "T"), ("edit", "T", "remove")],
+    "T>shrink(T)>S": [("R", "T"), ("edit", "T", "remove"), ("R", "S")],
 }
 HISTORIES_QUICK = ["C>S", "S>C", "[C,S]", "{C,S}", "S>T", "C>D>S", "[C,D,S]", "C>use(C)>S", "C>drop(C)>S", "C>edit(C)>S", "S>C>edit(C)",
-                   "S>T>edit(T)"]
-HIST_OPS = (["base:in_base", "base:in_cgs", "base:get_base_equivalent", "conv:to(str)", "conv:to(Unit)", "bin:add", "unit:describe"],
+                   "S>T>edit(T)", "S>editorig(S)", "S>T>editorig(S)", "S>editorig(S)>T", "C>S>editorig(C)", "[C,S]>editorig(S)",
+                   "S>rescale-orig(S)>T", "S>T>rescale(T)", "S>shrink-orig(S)>T"]
+HIST_OPS = (["base:in_base", "base:in_cgs", "base:get_base_equivalent", "conv:to(str)", "conv:to(Unit)", "bin:add", "unit:describe",
+             "chain:to(str)>to(own)", "chain:mul>to(own**2)", "chain:in_base>to(own)", "chain:to(str)>to(late)", "chain:reparse>in_base", "spare:to(spare)"],
             ["base:in_mks", "base:convert_to_base", "base:in_base(cgs)", "base:in_base(imperial)", "conv:in_units", "conv:from(Unit)", "bin:lt", "bin:mul",
-             "self:mul", "arith:sqrt", "unit:eq", "unit:mul", "unit:hash-consistent"])
+             "self:mul", "arith:sqrt", "unit:eq", "unit:mul", "unit:hash-consistent",
+             "chain:in_cgs>to(own)", "chain:scale>in_units(own)", "chain:reparse(own**2)>in_mks", "chain:to(late)", "chain:registry-has(late)", "spare:to(spare)", "spare:registry-has(spare)",
+             "chain:to(str)>to(str)", "chain:to(str)>in_base", "chain:to(Unit)>to(own)", "chain:add>to(own)", "chain:partner>to(own)"])
 
 
 def _edits_registry(hist):
     return any(st[0] == "edit" for st in HISTORIES[hist])
 
 
+def _edits_original(hist):
+    return any(st[0] == "editorig" for st in HISTORIES[hist])
+
+
+def _rows(reg):
+    """the part of a registry table that decides what a unit string means: scale, dimensions, offset, prefixable"""
+    return {k: (v[0], str(v[1]), v[2], v[4]) for k, v in reg.lut.items()}
+
+
 def make_history_case(cast, route, hist, ops, order):
     """several restorations in ONE path (nothing is cleared in between; every restored object stays referenced until it is
-    dropped explicitly): afterwards every restored member whose registry was not edited on purpose must behave like its original"""
+    dropped explicitly): afterwards every restored member whose registry was not edited on purpose must behave like its original -
+    like the original AS IT WAS WHEN IT WAS PERSISTED if the original's registry was edited afterwards"""
     ser_name, what = HROUTES[route]
     steps = HISTORIES[hist]
     roles = []
@@ -880,11 +978,12 @@ def make_history_case(cast, route, hist, ops, order):
             if r not in roles:
                 roles.append(r)
     prog = [(op,) + _op(op, cast.partner) for op in ops]
+    src_of = lambda r: "S" if r == "T" else r   # noqa: E731
 
     def originals(ctx):
         regs, units, partners = {}, {}, {}
         for r in roles:
-            src = "S" if r == "T" else r
+            src = src_of(r)
             if src not in regs:
                 world, ustr = cast.members[src]
                 regs[src] = WORLDS[world](ctx)
@@ -893,17 +992,39 @@ def make_history_case(cast, route, hist, ops, order):
             regs[r], units[r], partners[r] = regs[src], units[src], partners[src]
         return regs, units, partners
 
-    def run_history(ctx, units):
+    def edit_registry(ctx, reg, kind="both"):
+        # (the default registry and deep copies of it refuse modify() and remove(): then only the new symbol)
+        if kind in ("both", "scale"):
+            call(reg.modify, cast.edit, 3.0 * float(reg.lut[cast.edit][0]))
+        if kind in ("both", "add"):
+            reg.add(LATE, 7.0, ctx.mods["unyt"].dimensions.length)
+        if kind == "remove":
+            call(reg.remove, SPARE)
+
+    def run_history(ctx, regs, units, partners):
         import gc
-        ser = _ser(ser_name)
-        live, edited, dropped = {}, set(), set()
+        ser = _ser(ser_name, ctx)
+        elementwise = ser_name in ELEMENTWISE
+        # live: restored units; at: the original unit / partner units / table rows each member was restored FROM;
+        # frozen: members whose original's registry was edited after they had been restored
+        # late: members restored from an original whose registry had been edited before (from units made anew in it)
+        live, edited, frozen, late, at, orig_edited = {}, set(), set(), set(), {}, set()
+
+        def restored(r, back):
+            live[r] = _units_of(back)
+            at[r] = (units[r], partners[r], _rows(units[r].registry))
+            if src_of(r) in orig_edited:
+                late.add(r)
+
         for st in steps:
             if st[0] == "R":
-                live[st[1]] = _units_of(ser(_item(ctx, units[st[1]], what)))
+                restored(st[1], ser(_item(ctx, units[st[1]], what)))
             elif st[0] == "T":
                 rs, kind = list(st[1]), st[2]
                 items = [_item(ctx, units[r], what) for r in rs]
-                if kind == "dict":
+                if elementwise:
+                    back = [ser(it) for it in items]
+                elif kind == "dict":
                     back = ser({r: it for r, it in zip(rs, items)})
                     back = [back[r] for r in rs]
                 elif kind == "nested":
@@ -912,23 +1033,36 @@ def make_history_case(cast, route, hist, ops, order):
                 else:
                     back = list(ser(items if kind == "list" else tuple(items)))
                 for r, b in zip(rs, back):
-                    live[r] = _units_of(b)
-            elif st[0] == "use":
-                q = ctx.mods["unyt"].unyt_quantity(2.0, live[st[1]])
-                for f in (q.in_base, q.in_cgs, lambda: q.to(cast.partner), lambda: q + q, lambda: str(q.units), lambda: q.units.registry.unit_system_id):
+                    restored(r, b)
+            elif st[0] in ("use", "useorig"):
+                q = ctx.mods["unyt"].unyt_quantity(2.0, live[st[1]] if st[0] == "use" else units[st[1]])
+                for f in (q.in_base, q.in_cgs, lambda: q.to(cast.partner), lambda: q + q, lambda: str(q.units), lambda: q.units.registry.unit_system_id,
+                          lambda: q.to(cast.partner).to(str(q.units.expr)), lambda: (q * q).in_units(f"({q.units.expr})**2")):
                     call(f)
                 del q
             elif st[0] == "drop":
                 del live[st[1]]
-                dropped.add(st[1])
+                at.pop(st[1], None)
                 gc.collect()
             elif st[0] == "edit":
-                reg = live[st[1]].registry
-                # (the deep copy of a default-registry unit lives in a registry that refuses modify(): then only the new symbol)
-                call(reg.modify, cast.edit, 3.0 * float(reg.lut[cast.edit][0]))
-                reg.add("xhn", 7.0, ctx.mods["unyt"].dimensions.length)
+                edit_registry(ctx, live[st[1]].registry, *st[2:])
                 edited.add(st[1])
-        return live, edited
+            elif st[0] == "editorig":
+                src = src_of(st[1])
+                reg = units[src].registry
+                edit_registry(ctx, reg, *st[2:])
+                orig_edited.add(src)
+                # what the user holds of that registry from now on is made anew from the edited table
+                world, ustr = cast.members[src]
+                nu, npu = _mk_unit(ctx, ustr, reg), {cast.partner: _mk_unit(ctx, cast.partner, reg)}
+                for r in list(units):
+                    if src_of(r) == src:
+                        units[r], partners[r] = nu, npu
+                        if r in live:
+                            frozen.add(r)
+        return live, edited, frozen, late, at
+
+    assert order == "RO" or not _edits_original(hist), "a history that edits an original needs the fresh-world reference (order RO)"
 
     def h(ctx):
         _reset(ctx)
@@ -947,32 +1081,46 @@ def make_history_case(cast, route, hist, ops, order):
                     refs[r, i] = outcome(lambda: fn(Env(ctx, units0[r], regs0[r], partners0[r], po["x"], po["y"], po["x2"])))
             _clear(ctx)
         regs, units, partners = originals(ctx)
-        done = call(run_history, ctx, units)
+        done = call(run_history, ctx, regs, units, partners)
         ctx.require("history/completes", done[0] == "ok", error=repr(done[1])[:200])
         if done[0] != "ok":
             return
-        live, edited = done[1]
+        live, edited, frozen, late, at = done[1]
         leds = {}
         for r in roles:
             if r not in live or r in edited:
                 continue
-            u, ru = units[r], live[r]
-            # ground: the restored unit and the unit system of its registry
+            (u, pu, rows), ru = at[r], live[r]
+            # ground: the restored unit, the unit system and the table of its registry (against the original at restoration time)
             ctx.require(f"{r}/unit/equal", bool(ru == u) and bool(u == ru) and str(ru.expr) == str(u.expr) and ru.base_value == u.base_value,
                         original=show(_unit_key(u)), restored=show(_unit_key(ru)))
             ctx.require(f"{r}/registry/unit_system", str(u.registry.unit_system) == str(ru.registry.unit_system),
                         original=str(u.registry.unit_system)[:40], restored=str(ru.registry.unit_system)[:40])
-            if not edited:
-                la, lb = u.registry.lut, ru.registry.lut
-                ctx.require(f"{r}/registry/rows-equal", set(la) == set(lb) and all(la[k][0] == lb[k][0] and la[k][2] == lb[k][2] for k in la),
-                            changed=sorted(k for k in set(la) | set(lb) if k not in la or k not in lb or la[k][0] != lb[k][0])[:6])
+            lb = _rows(ru.registry)
+            ctx.require(f"{r}/registry/rows-equal", all(rows.get(k) == lb.get(k) for k in set(rows) | set(lb) if k != SPARE),
+                        changed=sorted(k for k in set(rows) | set(lb) if rows.get(k) != lb.get(k) and k != SPARE)[:6])
+            ctx.require(f"{r}/registry/spare-row", rows.get(SPARE) == lb.get(SPARE), original=repr(rows.get(SPARE)), restored=repr(lb.get(SPARE)))
+            if r in frozen:
+                # the partner units of the restored side are spelled out in the restored object's own registry
+                pr_units = call(lambda: {cast.partner: _mk_unit(ctx, cast.partner, ru.registry)})
+                ctx.require(f"{r}/registry/partner-parses", pr_units[0] == "ok", error=repr(pr_units[1])[:160])
+                if pr_units[0] != "ok":
+                    continue
             for i, (op, fn, dom) in enumerate(prog):
                 po, pr = pays[dom]
                 led = leds.setdefault(op.split(":")[0], Ledger(op.split(":")[0]))
                 _clear(ctx)
-                eo = lambda: fn(Env(ctx, u, regs[r], partners[r], po["x"], po["y"], po["x2"]))
-                er = lambda: fn(Env(ctx, ru, regs[r], partners[r], pr["x"], pr["y"], pr["x2"]))
-                if order == "OR":
+                if r in frozen:
+                    # the original has moved on: the reference is the original in the fresh world, before any edit
+                    b = outcome(lambda: fn(Env(ctx, ru, ru.registry, pr_units[1], pr["x"], pr["y"], pr["x2"])))
+                    led.add(f"{r}:restored-vs-original", op, refs[r, i], b)
+                    if r == "S":
+                        _observe(ctx, op, b)
+                    continue
+                eo = lambda: fn(Env(ctx, u, regs[r], pu, po["x"], po["y"], po["x2"]))
+                er = lambda: fn(Env(ctx, ru, regs[r], pu, pr["x"], pr["y"], pr["x2"]))
+                if order == "OR" or r in late:
+                    # (late: the reference is the edited original itself, as it is now)
                     a, b = outcome(eo), outcome(er)
                     led.add(f"{r}:restored-vs-original", op, a, b)
                 else:
@@ -1004,37 +1152,51 @@ CASTS_THOROUGH_EXTRA = [
     Cast("C@cgs|mks|statC@cgs", ("cgs0", "C"), ("default", "C"), ("cgs0", "statC"), "A*s", "C", kind="em"),
     Cast("pc@mod|add|mks", ("regmod", "pc"), ("regadd", "pc"), ("default", "pc"), "kpc", "pc"),
 ]
+# registries restored from their JSON text: the text carries the table only (not the unit system: known finding), so the casts of the
+# JSON histories live in mks registries; S / D (and default / mks0) dump the SAME text, C another one
+CASTS_JSON = [
+    Cast("xla@add|mod|add", ("regadd", "xla"), ("regmod", "xla"), ("regadd", "xla"), "pc", "xla"),
+    Cast("kxlp@add|mod|xla", ("regadd", "kxlp"), ("regmod", "kxlp"), ("regxla", "km"), "xla", "xlp"),
+    Cast("km@mks0|default|xla", ("mks0", "km"), ("default", "km"), ("regxla", "km"), "m", "m"),
+]
 HROUTES_QUICK = [f"graph:pickle{HI}.qty", "graph:pickle2.qty", "graph:deepcopy.qty", f"graph:pickle{HI}.unit"]
 HROUTES_RO_QUICK = {f"graph:pickle{HI}.qty"}
 
 
 def history_cases(thorough):
-    """quick: 4 casts x {pickle HI qty, deepcopy qty, pickle HI unit} (+ pickle 2 qty for the first cast) x 12 histories.
-    thorough: the 4 casts x the 4 quick routes x all 25 histories + x the 7 other routes x the 12 quick histories; 6 more casts x
-    {pickle HI qty, deepcopy qty} x all histories; restored-first order (fresh-world reference) on {pickle HI qty, deepcopy qty} for the
-    histories that do not edit a registry"""
+    """quick: 4 casts x {pickle HI qty, deepcopy qty, pickle HI unit} (+ pickle 2 qty for the first cast) x 17 histories; 3 JSON casts x text:json x 17.
+    thorough: the 4 casts x the 4 quick routes x all 36 histories + x the 7 other routes x the 17 quick histories; 6 more casts x
+    {pickle HI qty, deepcopy qty} x all histories; the 3 JSON casts x text:json x all histories; restored-first order (fresh-world reference)
+    on {pickle HI qty, deepcopy qty, JSON} for the histories that do not edit a registry; histories that edit an ORIGINAL: fresh-world reference only"""
     out = []
-    ro_routes = {f"graph:pickle{HI}.qty", "graph:deepcopy.qty"}
-    for ci, cast in enumerate(CASTS_QUICK + (CASTS_THOROUGH_EXTRA if thorough else [])):
-        core_cast = ci < len(CASTS_QUICK)
-        if not thorough:
+    ro_routes = {f"graph:pickle{HI}.qty", "graph:deepcopy.qty", "text:json"}
+    casts = [(c, "core") for c in CASTS_QUICK] + ([(c, "extra") for c in CASTS_THOROUGH_EXTRA] if thorough else []) + [(c, "json") for c in CASTS_JSON]
+    for ci, (cast, group) in enumerate(casts):
+        core_cast = group != "extra"
+        if group == "json":
+            plan = [("text:json", list(HISTORIES) if thorough else HISTORIES_QUICK)]
+        elif not thorough:
             plan = [(r, HISTORIES_QUICK) for r in HROUTES_QUICK if r != "graph:pickle2.qty" or ci == 0]
+            if ci == 3:
+                plan.append(("graph:deepcopy.registry", HISTORIES_QUICK))
         elif core_cast:
-            plan = [(r, list(HISTORIES) if r in HROUTES_QUICK else HISTORIES_QUICK) for r in HROUTES]
+            plan = [(r, list(HISTORIES) if r in HROUTES_QUICK else HISTORIES_QUICK) for r in HROUTES if r != "text:json"]
         else:
-            plan = [(r, list(HISTORIES)) for r in sorted(ro_routes)]
+            plan = [(r, list(HISTORIES)) for r in sorted(ro_routes - {"text:json"})]
         ops = HIST_OPS[0] + (HIST_OPS[1] if thorough and core_cast else [])
         for route, hists in plan:
             for hist in hists:
                 # a Unit pickled on its own carries its registry OBJECT: two units of one original registry legitimately share the
-                # restored one, like the originals do - registry edits are followed on the quantity/array routes only
-                if _edits_registry(hist) and HROUTES[route][1] == "unit":
+                # restored one, like the originals do - edits of a RESTORED registry are followed on the quantity/array/JSON routes only
+                if _edits_registry(hist) and HROUTES[route][1] == "unit" and HROUTES[route][0] not in ELEMENTWISE:
                     continue
-                if thorough:
-                    both = route in ro_routes and not _edits_registry(hist)
+                if _edits_original(hist):
+                    orders = ("RO",)
+                elif thorough:
+                    orders = ("OR", "RO") if route in ro_routes and not _edits_registry(hist) else ("OR",)
                 else:
-                    both = route in HROUTES_RO_QUICK and hist in ("C>S", "[C,S]", "C>D>S")
-                for order in (("OR", "RO") if both else ("OR",)):
+                    orders = ("OR", "RO") if route in HROUTES_RO_QUICK and hist in ("C>S", "[C,S]", "C>D>S") else ("OR",)
+                for order in orders:
                     out.append(make_history_case(cast, route, hist, ops, order))
     return out
 
